@@ -5,7 +5,7 @@ import os
 import time
 
 import h5vlib as H
-from props.c01 import random_big
+from props.c01 import random_big, many_chunks
 
 LEVEL = "exploration"
 ASSUME = ["harness/indep is an independent decoder written from the HDF5 File Format Specification 3.0; before it judges library files it is run over "
@@ -49,7 +49,7 @@ def run(ctx):
             if n > 8:
                 ops += [{"op": "delattr", "p": "/d", "n": "a%02d" % i} for i in range(0, n, 3)]
             cases.append({"cfg": {"sb": sb, "rb": "", "style": 0, "tag": "C05-dense"}, "ops": ops})
-    cases += random_big(ctx, 3000 if thorough else 400)
+    cases += many_chunks() + random_big(ctx, 3000 if thorough else 400)
     path = ctx.write_cases(cases)
     trace, dout = ctx.drive("ops", path, env={"H5V_VIEW": "indep"})
     H.log(dout.strip())
